@@ -40,6 +40,7 @@ P = {
          "Integer seconds reach a Duration through integer arithmetic only (no detour through float64, which would round above 2^53). "
          "reifyDuration classifies what a reference evaluates to, not the reference node, so a number behind a reference means seconds like one written in place (R03f). "
          "The numbers parse.Value finds in the text of a value (what a resolver, a default or a splice expands to) are result #0 of strconv.ParseUint/ParseInt/ParseFloat: no hand-written digit arithmetic with an overflow behaviour of its own (R03g). "
+         "After a failed exact integer parse of a number kept as text no other reader answers unless the failure was tested to be a syntax error (a range error stays an error). "
          "Thorough tier repeats the rules for GOARCH=386. Each numeric reflect kind, uintptr included, is accepted by exactly one of the kind predicates doReifyPrimitive dispatches on, so no numeric target reaches its unchecked fall-through conversion (R03h). One known finding (int(idx) on 32-bit platforms). "
          "That an in-range number is stored exactly, and strconv/time parsing, are not decided.",
          TRUST + "strconv and time.ParseDuration trusted.",
@@ -58,6 +59,7 @@ P = {
          "value behind pointers and none recognises strings by an assertion to string; in reifyStruct every field that is not skipped reaches an "
          "unpack/validate routine, and uses the field's own validate tag, before the next iteration (an inlined map or struct included: validateStruct, the sibling that only validates, applies the tag to every field). "
          "The kind dispatch of nonzero, min and max has a comparing case for each of the thirteen numeric kinds, uintptr included (R04l). "
+         "tryValidate asks the value behind interfaces and pointer chains for its Validate() method, not the static type of the holder (R04m). "
          "That each built-in validator computes the right predicate otherwise is not decided.",
          TRUST + "Custom validators and Validate() methods are user code: decided is that they are called.",
          "§3 C04"),
@@ -110,7 +112,7 @@ P = {
          "refuses the receiver and its ancestors, the zero value of Config reads as empty and gets its fields when first written, and an Implements-guarded "
          "assertion of Interface() has a nil guard. Totality over all inputs is a runtime claim; decided is the guarding of each panic point. Third-party "
          "decoders, stack depth, parser-loop termination, kind preconditions of locals outside the dispatch rules and the convertibility "
-         "precondition of reflect Convert are not decided.",
+         "precondition of reflect Convert are not decided. No map keyed by the empty interface is given data (a reflect Interface() result, an interface value of unknown origin) as key without a Comparable() test (R07t: the runtime panics on unhashable keys).",
          TRUST + "The Go compiler's prove pass is trusted for the bounds checks it eliminates.",
          "§3 C07, appendix B E3"),
  "C08": (True,
@@ -120,7 +122,7 @@ P = {
          "and its failing edge returns the cyclic error; no makeOptions caller is recursive (the guard is never reset inside a recursion); guard scopes "
          "are paired, text-level evaluators resolve inside a scope that covers the consumption of the value, and every child loop that can reach "
          "resolveRef opens a fresh child scope per iteration; live sub-configs are never cached; the guard chain is never cut; an unresolved reference "
-         "is never a success; a resolved value that a helper returns out of its guard scope is followed to the callers, none of which may evaluate it (R08d(ii)). Does not decide that non-cyclic graphs produce the right text.",
+         "is never a success; a resolved value that a helper returns out of its guard scope is followed to the callers, none of which may evaluate it (R08d(ii)), and no sub-configuration taken from it is handed out of the scope. Does not decide that non-cyclic graphs produce the right text.",
          TRUST + "Cut at parseValue (text produced by an evaluation is normalized into a fresh tree). Merge/normalize loops are outside C08's read entry points.",
          "§3 C08"),
  "C09": (True,
